@@ -100,60 +100,62 @@ impl RelayTransport {
             "non matching bufs & recv_infos"
         );
         let mut num_msgs = 0;
-        for i in 0..bufs.len() {
+        'slots: for i in 0..bufs.len() {
             let buf_out = &mut bufs[i];
             let meta_out = &mut metas[i];
             let recv_info = &mut recv_infos[i];
-            let dm = match self.poll_recv_queue(cx) {
-                Poll::Ready(Some(recv)) => recv,
-                Poll::Ready(None) => {
-                    error!("relay_recv_channel closed");
-                    return Poll::Ready(Err(io::Error::new(
-                        io::ErrorKind::NotConnected,
-                        "connection closed",
-                    )));
-                }
-                Poll::Pending => {
-                    break;
-                }
-            };
+            // Take items until one fits into this slot; items that do not fit are dropped.
+            let dm = loop {
+                let dm = match self.poll_recv_queue(cx) {
+                    Poll::Ready(Some(recv)) => recv,
+                    Poll::Ready(None) => {
+                        error!("relay_recv_channel closed");
+                        return Poll::Ready(Err(io::Error::new(
+                            io::ErrorKind::NotConnected,
+                            "connection closed",
+                        )));
+                    }
+                    Poll::Pending => {
+                        break 'slots;
+                    }
+                };
 
-            // This *tries* to make the datagrams fit into our buffer by re-batching them.
-            let num_segments = dm
-                .datagrams
-                .segment_size
-                .map_or(1, |ss| buf_out.len() / u16::from(ss) as usize);
-            let datagrams = dm.datagrams.take_segments(num_segments);
-            let empty_after = dm.datagrams.contents.is_empty();
-            let dm = RelayRecvDatagram {
-                datagrams,
-                src: dm.src,
-                url: dm.url.clone(),
-            };
-            // take_segments can leave `self.pending_item` empty, in that case we clear it
-            if empty_after {
-                self.pending_item = None;
-            }
+                // This *tries* to make the datagrams fit into our buffer by re-batching them.
+                // Always take at least one segment: if a single segment is bigger than our
+                // buffer it is dropped below, instead of handing out empty datagrams forever.
+                let num_segments = dm.datagrams.segment_size.map_or(1, |ss| {
+                    (buf_out.len() / u16::from(ss) as usize).max(1)
+                });
+                let datagrams = dm.datagrams.take_segments(num_segments);
+                let empty_after = dm.datagrams.contents.is_empty();
+                let dm = RelayRecvDatagram {
+                    datagrams,
+                    src: dm.src,
+                    url: dm.url.clone(),
+                };
+                // take_segments can leave `self.pending_item` empty, in that case we clear it
+                if empty_after {
+                    self.pending_item = None;
+                }
 
-            if buf_out.len() < dm.datagrams.contents.len() {
-                // Our receive buffer isn't big enough to process this datagram.
-                // Continuing would cause a panic.
-                warn!(
-                    noq_buf_len = buf_out.len(),
-                    datagram_len = dm.datagrams.contents.len(),
-                    segment_size = ?dm.datagrams.segment_size,
-                    "dropping received datagram: noq buffer too small"
-                );
-                break;
-                // In theory we could put some logic in here to fragment the datagram in case
-                // we still have enough room in our `buf_out` left to fit a couple of
-                // `dm.datagrams.segment_size`es, but we *should* have cut those datagrams
-                // to appropriate sizes earlier in the pipeline (just before we put them
-                // into the `relay_datagram_recv_queue` in the `ActiveRelayActor`).
-                // So the only case in which this happens is we receive a datagram via the relay
-                // that's essentially bigger than our configured `max_udp_payload_size`.
-                // In that case we drop it and let MTU discovery take over.
-            }
+                if buf_out.len() < dm.datagrams.contents.len() {
+                    // Our receive buffer isn't big enough to process this datagram.
+                    // Continuing would cause a panic.  So the only case in which this happens
+                    // is we receive a datagram via the relay that's essentially bigger than
+                    // our configured `max_udp_payload_size`.  In that case we drop it and let
+                    // MTU discovery take over.  We keep going with the next queued item: we
+                    // must not return `Poll::Pending` without having polled the queue empty,
+                    // otherwise no waker is registered for the items still queued.
+                    warn!(
+                        noq_buf_len = buf_out.len(),
+                        datagram_len = dm.datagrams.contents.len(),
+                        segment_size = ?dm.datagrams.segment_size,
+                        "dropping received datagram: noq buffer too small"
+                    );
+                    continue;
+                }
+                break dm;
+            };
 
             buf_out[..dm.datagrams.contents.len()].copy_from_slice(&dm.datagrams.contents);
             meta_out.len = dm.datagrams.contents.len();
